@@ -405,7 +405,8 @@ impl ToOrdinal {
             } else {
                 definitions.get_vec("NumbersOrdinalFractionalOnes")?
             };
-            let number_as_int: usize = number.parse().unwrap(); // already verified it is only digits
+            // already verified it is only digits: the only possible error is overflow (21 digits or more), and such a number is not irregular
+            let number_as_int: usize = match number.parse() { Ok(n) => n, Err(_) => return None };
             if number_as_int < words.len() {
                 // use the words associated with this irregular pattern.
                 return Some( words[number_as_int].clone() );
